@@ -1,5 +1,16 @@
 package main
 
+import (
+	"context"
+	"encoding/json"
+	"fmt"
+	"os"
+	"os/exec"
+	"path/filepath"
+	"strings"
+	"time"
+)
+
 // Property definitions: which functions are under contract for each property, which obligation
 // kinds decide it, property-specific hooks and non-SMT (table) obligations.
 
@@ -147,6 +158,36 @@ func init() {
 		},
 		LevelNote: "Proved for every request and token: KRB5Token.Verify, NegTokenInit/NegTokenResp/SPNEGOToken.Verify and AcceptSecContext return ok only if service.VerifyAPREQ accepted the AP-REQ inside the token, then with status COMPLETE and a context carrying exactly the credentials VerifyAPREQ returned, and never return status COMPLETE otherwise; the HTTP wrapper calls the wrapped handler only after such an acceptance (with those credentials as identity) or for an established session, and otherwise answers 401 with WWW-Authenticate set (500 when the session store fails).",
 	}
+	props["C08"] = &PropDef{
+		Funcs: []string{
+			`crypto.GetKeyFromPassword`, `types.GenerateEncryptionKey`, `(types.PrincipalName).GetSalt`,
+			`crypto/rfc3962\.(S2KparamsToItertions|StringToPBKDF2|StringToKey|StringToKeyIter)`,
+			`crypto/rfc8009\.(S2KparamsToItertions|GetSaltP|StringToPBKDF2|StringToKey|StringToKeyIter|KDF_HMAC_SHA2|DeriveKey|DeriveRandom)`,
+			`crypto/rfc4757\.(StringToKey|HMAC)`,
+			`crypto/rfc3961\.(DES3StringToKey|DeriveKey|DeriveRandom|DES3RandomToKey|stretch56Bits|fixWeakKey|weak)`,
+			`\(crypto\.[A-Za-z0-9]+\)\.(StringToKey|DeriveKey|DeriveRandom|RandomToKey|GetKeyByteSize|GetKeySeedBitLength|GetDefaultStringToKeyParams|GetETypeID|GetHashFunc)`,
+			`crypto.GetEtype`,
+		},
+		Kinds:           kinds(contractKinds...),
+		NeedObligations: true,
+		QuickTimeout:    20,
+		Extra: func(cc *checkCtx) []*Obligation {
+			return cc.boundedTest("crypto/rfc3961.Nfold", "crypto/rfc3961", "nfold_test.go.txt", "^TestGowpBoundedNfold$",
+				"all 1- and 2-octet inputs, 20000 (thorough: 400000) pseudo-random inputs of 3..40 octets, output sizes 56/64/128/168/192/256 bits, RFC 3961 A.1 vectors; oracle: independent big-integer implementation of RFC 3961 5.1")
+		},
+		Assumptions: []string{
+			"PBKDF2, HMAC, the hash functions, hex encoding, UTF-16 encoding of runes and []rune(string) are uninterpreted functions (pbkdf2, hmac, hashf, hexdec/hexenc, utf16.arr, runes.arr); that the libraries compute them is not gokrb5 code",
+			"n-fold is the uninterpreted nfold(m, n) in the contracts (trusted contract on rfc3961.Nfold: nonlinear bit-index arithmetic is outside what the solvers decide); the implementation is compared with an independent RFC 3961 5.1 implementation by the bounded stand-in, which is not a proof",
+			"des3 random-to-key (parity and weak-key correction) and the DR feedback loop are taken at the level of des3_r2k / et_dr (trusted_ensures on DES3RandomToKey / rfc3961.DeriveRandom)",
+			"the ASN.1 decoders of PA-ETYPE-INFO / PA-ETYPE-INFO2 are trusted; the first decoded entry is an uninterpreted function of the encoding",
+			"the default parameters of an etype are the text its GetDefaultStringToKeyParams returns (et_defparams); their numeric values are literals in the six implementations",
+		},
+		NotDecided: []string{
+			"GetKeyFromPassword is specified for sequences containing PA-ETYPE-INFO2 (which wins) and for sequences with none of the three elements; the PA-ETYPE-INFO-only and PA-PW-SALT-only cases follow the same mechanism but are not stated as postconditions",
+			"bit-level definitions of des3 random-to-key (stretch56Bits parity, weak keys) against RFC 3961 6.3.1 are only checked for memory safety and lengths here",
+		},
+		LevelNote: "Proved for every password, salt, parameter and PA-DATA sequence: string-to-key of the six etypes equals the RFC composition - DK(random-to-key(PBKDF2-HMAC-SHA1(...)), \"kerberos\") with 0 meaning 2^32 iterations (RFC 3962 4), KDF-HMAC-SHA2(random-to-key(PBKDF2-HMAC-SHA2(pw, etype-name|0|salt, iter, keylength)), \"kerberos\") (RFC 8009 4), DK(random-to-key(168-fold(pw|salt)), \"kerberos\") (RFC 3961 6.3.1), MD4(UTF-16LE(pw)) (RFC 4757 2); KDF-HMAC-SHA2 and the RFC 8009 / 4757 derive-key functions equal their RFC definitions; GetKeyFromPassword uses etype, salt and parameters of the last PA-ETYPE-INFO2 wherever it stands, and the requested etype with default salt and parameters when no string-to-key PA-DATA is present; generated keys carry the etype number and the protocol key length (open known finding: 24 instead of 32 octets for aes256-cts-hmac-sha384-192). n-fold: bounded stand-in only.",
+	}
 	props["C17"] = &PropDef{
 		Funcs: []string{
 			`(*gssapi.WrapToken).Marshal`, `(*gssapi.WrapToken).Unmarshal`, `(*gssapi.WrapToken).computeCheckSum`, `(*gssapi.WrapToken).Verify`,
@@ -230,4 +271,37 @@ func init() {
 		AllowUnsupported: map[string]bool{"(*client.Client).enableAutoSessionRenewal$1": true, "(*client.sessions).update": true, "(*client.session).destroy": true},
 		Exclude:          []string{`service\.GetReplayCache\$1\$1`, `service\.GetReplayCache\$1`},
 	}
+}
+
+// boundedTest runs an executable stand-in: the test source /verif/bounded/<file> is injected into the package
+// directory with go test -overlay. A pass is recorded under bounded_standins (never counted as proved); a failure
+// becomes an open obligation whose text carries the failing input printed by the test.
+func (cc *checkCtx) boundedTest(name, pkgRel, file, run, bound string) []*Obligation {
+	dir := filepath.Join("/repo/v8", pkgRel)
+	src := filepath.Join(verifDir, "bounded", file)
+	ov := map[string]map[string]string{"Replace": {filepath.Join(dir, "zz_gowp_bounded_test.go"): src}}
+	ovb, _ := json.Marshal(ov)
+	ovf := filepath.Join(ensureWorkDir(), "bounded_"+fileSafe.ReplaceAllString(name, "_")+".json")
+	os.WriteFile(ovf, ovb, 0644)
+	ctx, cancel := context.WithTimeout(context.Background(), 900*time.Second)
+	defer cancel()
+	t0 := time.Now()
+	cmd := exec.CommandContext(ctx, "bash", "-c", "cd "+dir+" && go test -v -overlay "+ovf+" -vet=off -count=1 -timeout 800s -run '"+run+"' . 2>&1 | tail -30")
+	cmd.Env = append(os.Environ(), "GOFLAGS=-mod=mod", "GOPROXY=off", "GOSUMDB=off", "GOTOOLCHAIN=local", "VERIF_TIER="+cc.tier, fmt.Sprintf("VERIF_SEED=%d", cc.seed))
+	out, _ := cmd.CombinedOutput()
+	s := string(out)
+	cases := ""
+	if i := strings.Index(s, "GOWP-BOUNDED-CASES "); i >= 0 {
+		cases = strings.Fields(s[i+len("GOWP-BOUNDED-CASES "):])[0]
+	}
+	ok := strings.Contains(s, "--- PASS") && strings.Contains(s, "\nok ") && !strings.Contains(s, "GOWP-BOUNDED-FAIL")
+	rec := map[string]interface{}{"name": name, "bound": bound, "cases": cases, "seconds": time.Since(t0).Seconds(), "result": "pass", "label": "bounded (not a proof)"}
+	if !ok {
+		rec["result"] = "fail"
+	}
+	cc.bounded = append(cc.bounded, rec)
+	if ok {
+		return nil
+	}
+	return []*Obligation{{Fn: name, Name: name + "#bounded", Kind: "bounded", Desc: "bounded stand-in " + name + " (" + bound + ")", Status: "failed", Raw: s}}
 }
